@@ -73,3 +73,22 @@ func VerifSegmentWholeName() {
 	vnd.Assert(!ok, "a name with extra leading or trailing bytes is not recognised as a segment")
 	vnd.Cover(true, "candidate checked")
 }
+
+// VerifZoneSuffixRoundTrip: the %z suffix over a menu of UTC offsets including sub-hour negative
+// and non-integral-hour ones.
+func VerifZoneSuffixRoundTrip() {
+	time.Local = time.UTC
+	offs := []int{0, 30 * 60, -(30 * 60), 45 * 60, -(9*3600 + 30*60), 5*3600 + 45*60, -(12 * 3600), 14 * 3600, -60, 59 * 60}
+	off := offs[vnd.Choose("offset", len(offs))]
+	vnd.Assume(off%60 == 0) // offsets are whole minutes in the name format
+	f := verifFormats[1]
+	start := time.Date(2024, 6, 15, 12, 0, 30, 123456000, time.FixedZone("z", off))
+	enc := Path{Start: start, Path: "cam"}.Encode(f)
+	var d Path
+	ok := d.Decode(f, enc)
+	vnd.Assert(ok, "zone: a produced segment name is recognised")
+	vnd.Assert(d.Start.Equal(start), "zone: the start instant is recovered whatever the UTC offset")
+	_, gotOff := d.Start.Zone()
+	vnd.Assert(gotOff == off, "zone: the offset itself is recovered")
+	vnd.Cover(off < 0 && off > -3600, "negative sub-hour offset")
+}
